@@ -438,11 +438,14 @@ def gen_manager(repo: pathlib.Path) -> str:
                 and ast.unparse(s.value) == "self._get_bounds(pairs_data)" and ast.unparse(s.targets[0]) == "bounds"), None)
     if idx is None:
         raise Unsupported("_check_request: `bounds = self._get_bounds(pairs_data)` not found")
-    tail = stmts[idx + 1:]
-    if not (tail and isinstance(tail[0], ast.Assign) and ast.unparse(tail[0].value) == "request.power.as_watts()"
-            and isinstance(tail[0].targets[0], ast.Name)):
-        raise Unsupported("_check_request: expected `power = request.power.as_watts()` after the bounds")
-    pw = tail[0].targets[0].id
+    # `power = request.power.as_watts()` directly before or after it (two independent statements, either order)
+    pidx = next((i for i in (idx + 1, idx - 1) if 0 <= i < len(stmts) and isinstance(stmts[i], ast.Assign)
+                 and ast.unparse(stmts[i].value) == "request.power.as_watts()"  # type: ignore[attr-defined]
+                 and isinstance(stmts[i].targets[0], ast.Name)), None)  # type: ignore[attr-defined]
+    if pidx is None:
+        raise Unsupported("_check_request: expected `power = request.power.as_watts()` next to the bounds")
+    pw = stmts[pidx].targets[0].id  # type: ignore[attr-defined]
+    tail = [None] + stmts[max(idx, pidx) + 1:]
     tr = Tr(subst={"request.adjust_power": "adjust_power"})
 
     def ret(v, env):
